@@ -10,34 +10,44 @@ from . import common
 
 META = {
     "technique": "Lean 4 proof (refinement of every operation history to the abstract map Name -> Option Bytes, by induction on the history) + exact differential correspondence with the tree's VFS / FilePath code",
-    "text": "Model of FilePath normalisation (AbsPrefix, PathReduce, Combine, StripPath, Lower) and of the VFS mount table with mj_addBufferVFS / mj_addFileVFS / mj_deleteFileVFS (incl. lower-cased fall-back) / mj_containsBufferVFS / mj_containsFileVFS / mju_openResource+read (FindMount: exact, directory-prefix, legacy basename match, default provider over an explicit disk table). Proved for all histories: refinement to the abstract spec modulo the key the API computes; a name is present iff some add for its key returned 0 and no later delete/reset removed it; re-add returns 2 and changes nothing; a read of a present name returns exactly the stored bytes; a delete fails iff neither the normalised name nor its lower-cased basename is present. The model has two marked variant switches (contains lookup raw/normalised, FindMount exact-first/loop-only); the check probes the real code and compares against the matching variant; the full theorems are about the variant with both fixes, `_partial` theorems and machine-checked counter-witnesses cover the as-found variant.",
+    "text": "Model of FilePath normalisation (AbsPrefix, PathReduce, Combine, StripPath, Lower) and of the VFS mount table with mj_addBufferVFS / mj_addFileVFS / mj_deleteFileVFS (incl. lower-cased fall-back) / mj_containsBufferVFS / mj_containsFileVFS / mju_openResource+read (FindMount: exact, directory-prefix, legacy basename match, default provider over an explicit disk table). Proved for all histories: refinement to the abstract spec modulo the key the API computes; a name is present iff some add for its key returned 0 and no later delete/reset removed it; re-add returns 2 and changes nothing; a read of a present name returns exactly the stored bytes; a delete fails iff neither the normalised name nor its lower-cased basename is present. The model has two marked variant switches (contains lookup raw/normalised, FindMount exact-first/loop-only); the check probes the real code and compares against the matching variant; each theorem carries exactly the switch it needs as a hypothesis (state refinement and presence = added-and-not-deleted-since need none; the contains clauses need the normalising lookup; the read clause needs the exact-first lookup only for the empty path; the full trace refinement needs both); `_partial` theorems and machine-checked counter-witnesses cover the as-found variants.",
     "note": "hand-written model; tie = differential run of the unmodified user_vfs.cc/user_resource.cc/user_util.cc (exhaustive op sequences over curated name groups + seeded random sequences) against the compiled Lean model, return codes and bytes compared exactly (hash-order dependent legacy match: membership in the model's candidate set). Assumes no registered resource providers (checked), ASCII names; the OS file system is an explicit table declared from os.stat; directories as read targets are not modelled (generator avoids them). mj_deleteFileVFS's lower-cased fall-back is treated as part of the API's normalisation.",
 }
 
 THEOREMS = [
-    "MjProof.C39.vfs_refines_spec",
-    "MjProof.C39.vfs_refines_spec_from",
+    # hold for every model variant (hence tied to the tree whatever the probe says)
+    "MjProof.C39.vfs_state_refines_spec",
     "MjProof.C39.present_iff_added_not_deleted_since",
-    "MjProof.C39.has_iff_added_not_deleted_since",
-    "MjProof.C39.read_returns_added_bytes",
-    "MjProof.C39.read_present_exact",
     "MjProof.C39.add_absent",
     "MjProof.C39.add_existing_repeated_unchanged",
-    "MjProof.C39.has_iff_present",
     "MjProof.C39.hasFile_iff_present",
     "MjProof.C39.delete_absent_fails",
     "MjProof.C39.delete_fails_iff_absent",
     "MjProof.C39.delete_present",
-    "MjProof.C39.vfs_refines_spec_asFound_partial",
-    "MjProof.C39.read_present_exact_asFound_partial",
+    # need `normContains = true` (mj_containsBufferVFS normalises its argument)
+    "MjProof.C39.has_iff_present",
+    "MjProof.C39.has_iff_added_not_deleted_since",
+    # need `exactFirst = true` for the empty path (FindMount looks the full path up first)
+    "MjProof.C39.read_present_exact",
+    "MjProof.C39.read_returns_added_bytes",
+    # need both
+    "MjProof.C39.vfs_refines_spec",
+    "MjProof.C39.vfs_refines_spec_from",
+    # what holds for a variant lacking a fix, and the machine-checked counter-witnesses
+    "MjProof.C39.vfs_refines_spec_partial",
+    "MjProof.C39.has_iff_present_raw_partial",
+    "MjProof.C39.has_iff_added_not_deleted_since_raw_partial",
     "MjProof.C39.containsRaw_eq_containsNorm_partial",
     "MjProof.C39.asFound_contains_counterexample",
     "MjProof.C39.asFound_not_refinement",
     "MjProof.C39.asFound_read_counterexample",
 ]
-# theorems that are the ones tied to the code only when the real code shows the fixed behaviour
-FULL_ONLY_IF_FIXED = {"contains": ["MjProof.C39.vfs_refines_spec", "MjProof.C39.has_iff_added_not_deleted_since"],
-                      "findmount": ["MjProof.C39.read_returns_added_bytes", "MjProof.C39.read_present_exact"]}
+# theorems whose switch hypothesis is met by the tree only if the real code shows the fixed behaviour
+FULL_ONLY_IF_FIXED = {
+    "contains": ["MjProof.C39.has_iff_present", "MjProof.C39.has_iff_added_not_deleted_since",
+                 "MjProof.C39.vfs_refines_spec", "MjProof.C39.vfs_refines_spec_from"],
+    "findmount": ["MjProof.C39.read_present_exact (empty path)", "MjProof.C39.read_returns_added_bytes (empty path)",
+                  "MjProof.C39.vfs_refines_spec", "MjProof.C39.vfs_refines_spec_from"]}
 
 KEY_CONTAINS = "c39:contains-unnormalised-name"
 KEY_EMPTY = "c39:read-empty-path-wrong-bytes"
@@ -587,8 +597,9 @@ def run(ctx):
         ctx.extra["model_variant_matching_the_code"] = {
             "mj_containsBufferVFS": contains + (" (raw string lookup: defect, full theorems not tied)" if contains == "raw" else " (normalising: full theorems tied)"),
             "FindMount": findmount + (" (empty path never looked up: defect, full read theorem not tied)" if findmount == "loop" else " (exact lookup first: full theorems tied)"),
-            "full_theorems_not_tied_to_this_tree": (FULL_ONLY_IF_FIXED["contains"] if contains == "raw" else []) +
-                                                   (FULL_ONLY_IF_FIXED["findmount"] if findmount == "loop" else []),
+            "theorems_whose_variant_hypothesis_this_tree_does_not_meet": sorted(set(
+                (FULL_ONLY_IF_FIXED["contains"] if contains == "raw" else []) +
+                (FULL_ONLY_IF_FIXED["findmount"] if findmount == "loop" else []))),
         }
         seqs = gen_sequences(ctx)
         lines, index, kinds, dropped = build_stream(ctx, drv, seqs, cwd_fd, [contains, findmount])
